@@ -212,7 +212,7 @@ func publishImpl(ctx context.Context, c *BaseClient, message *Message, dup bool)
 				return wrapErrorWithRetry(err, retryPublish2, "sending PUBREL")
 			}
 			select {
-			case <-cli.connClosed:
+			case <-cli.Done():
 				return wrapErrorWithRetry(ErrClosedTransport, retryPublish2, "waiting PUBCOMP")
 			case <-ctx.Done():
 				return wrapErrorWithRetry(ctx.Err(), retryPublish2, "waiting PUBCOMP")
